@@ -764,6 +764,10 @@ func init() {
 		if thorough {
 			n *= 12
 		}
+		if os.Getenv("VERIF_SEARCH") != "" && n > 10*tr.EnvInt("BLK_CASES", 600) {
+			// bin/check's search pass after a broken tie: keep a failing quick run short
+			n = 10 * tr.EnvInt("BLK_CASES", 600)
+		}
 		for i := 0; i < n; i++ {
 			runCase(t, r)
 		}
